@@ -192,6 +192,9 @@ func (w *world) deliver(c pb.Chunk, tag deliverTag) {
 			return
 		}
 	}
+	if exp == expAny && !ok && rc.ChunkId != 0 && st != nil && st.refused == "" {
+		st.refused = fmt.Sprintf(" (the receiver refused chunk #%d of this stream and kept accepting the following ones)", rc.ChunkId)
+	}
 	// --- model transition
 	if rc.ChunkId == 0 {
 		st = &mstream{from: rc.From, next: 1, src: tag.src, pure: tag.unmodified() && tag.idx == 0, files: map[string][]byte{}}
@@ -258,7 +261,7 @@ func (w *world) deliver(c pb.Chunk, tag deliverTag) {
 		if appeared || ok {
 			hdr := ""
 			if st.poisoned {
-				hdr = " [" + st.corrupt + "]"
+				hdr = " [" + st.corrupt + "]" + st.refused
 			}
 			w.ctx.Violate(Prop, "finalized-incomplete", "stream of source %d finalized (Add=%t, directory appeared=%t) although its accepted chunks are not the complete unaltered sequence%s; last chunk %s",
 				st.src.id, ok, appeared, hdr, tag.desc)
